@@ -258,7 +258,9 @@ static void judge(const Problem& p, const Instance& I, const Result& R, bool plu
             ++F.n;
             if (uc == ImpulseSolver::UniActive) { if (equalities) resid(eqN, std::fabs(w[r]) / piScale, eqB); }
             else if (uc == ImpulseSolver::UniOff) {
-                if (R.pi[r] != 0) F.add(S + "/uniOff-with-impulse", "contact reported UniOff but normal impulse is " + num(R.pi[r]) + at);
+                // PGS: the projection sets the impulse to exactly 0.  PLUS: the condition describes the LAST sliding interval; impulse
+                // accumulated in earlier intervals legitimately remains (then the velocity clause below is what matters).
+                if (!plus && R.pi[r] != 0) F.add(S + "/uniOff-with-impulse", "contact reported UniOff but normal impulse is " + num(R.pi[r]) + at);
                 if (equalities && sgn * w[r] < -tolW) F.add(S + "/uniOff-approaching", "contact reported UniOff (no impulse) but the resulting normal velocity " + num(w[r]) + " is approaching" + at);
             } else F.add(S + "/contact-condition-unset", "participating contact has condition " + std::to_string(uc) + at);
         }
@@ -269,7 +271,7 @@ static void judge(const Problem& p, const Instance& I, const Result& R, bool plu
             const int fc = R.fricCond[b]; const double wt = std::sqrt(w[r + 1] * w[r + 1] + w[r + 2] * w[r + 2]);
             ++F.n;
             const bool normalOff = k == kF && R.uniCond[b] == ImpulseSolver::UniOff;
-            if (normalOff) { if (f > tolI) F.add(S + "/friction-without-normal", "normal is off but friction impulse is " + num(f) + at); }
+            if (normalOff) { if (!plus && f > tolI) F.add(S + "/friction-without-normal", "normal is off but friction impulse is " + num(f) + at); }   // PLUS: see above; the cone clause covers it
             else if (fc == ImpulseSolver::Rolling) { if (equalities) resid(eqR, wt / piScale, eqB); }
             else if (fc == ImpulseSolver::Sliding || fc == ImpulseSolver::Impending) {
                 if (!plus && equalities) {   // PGS: scaled onto the cone, and (fixed point of the projection) not adding energy
@@ -519,9 +521,10 @@ int main(int argc, char** argv) {
         std::map<std::string, int64_t> cnt; int64_t trans = 0;
         const int base = it.m <= 3 ? 3 : 2;     // verrStart alphabet {-1,0,1} (m<=3) or {-1,1} (m=4)
         int64_t nrhs = 1; for (int i = 0; i < it.m; ++i) nrhs *= base;
-        // variants (D, applied): quick (0,0),(1,0); thorough adds (0,1); m=4: (0,0) only
+        // variants (D, applied): quick (0,0),(1,0) (+(0,1) for assignments with a frictional contact); thorough adds (0,1) everywhere; m=4: (0,0) only
         std::vector<std::pair<int, int>> variants = {{0, 0}};
-        if (it.m <= 3) { variants.push_back({1, 0}); if (thorough) variants.push_back({0, 1}); }
+        bool frictional = false; for (Kind k : p.blocks) if (k == kF || k == kFK) frictional = true;
+        if (it.m <= 3) { variants.push_back({1, 0}); if (thorough || frictional) variants.push_back({0, 1}); }   // quick: verrApplied only with frictional contacts
         for (auto& var : variants) {
             p.dflag = var.first; p.applied = var.second;
             for (int64_t rc = 0; rc < nrhs; ++rc) {
@@ -540,11 +543,11 @@ int main(int argc, char** argv) {
         run.transition(trans);
     });
 
-    // ---- probes of role/solver pairs whose implementation is missing (source: "TODO"): each case in a forked child, m <= 2 (3 thorough)
+    // ---- probes of role/solver pairs whose implementation is missing (source: "TODO"): each case in a forked child, m <= 2
     {
         struct Probe { Problem p; bool plus; };
         std::vector<Probe> probes;
-        const int PM = thorough ? 3 : 2;
+        const int PM = 2;   // one fork per probe: m <= 2 in both tiers
         for (int m = 1; m <= PM; ++m) for (auto& rl : roles[m]) {
             bool plusOk = true, hasSpeed = false; for (Kind k : rl) { if (!plusImplements(k)) plusOk = false; if (k == kS || k == kSm) hasSpeed = true; }
             if (plusOk && !hasSpeed) continue;
